@@ -56,6 +56,7 @@ class Profile:
     min_cont_states: int = 0
     min_disc_states: int = 0
     p_period_only_in_constraints: float = 0.0
+    p_infeasible_last: float = 0.0
     p_next_dependent_constraint: float = 0.15
     max_RC: int = 2
     min_RC: int = 0
@@ -439,14 +440,20 @@ def model_specs(draw, prof: Profile = Profile()):
             args=list(dict.fromkeys(args)), body=f"{margin} >= 0", margin=margin
         )
         bonus_terms.append((f"(1.0 - 1.0 * ({margin_inl} >= 0))", var_args))
-    if dchoices and (Tc != Tp or d.bool(prof.p_table_constraint)):
+    # by construction: some discrete state labels have NO feasible choice in the LAST period only
+    # (value -inf there; every earlier period keeps a feasible choice for every state)
+    inf_last = bool(prof.p_infeasible_last) and T >= 2 and bool(dstates) and bool(dchoices) and d.bool(prof.p_infeasible_last)
+    if dchoices and (inf_last or Tc != Tp or d.bool(prof.p_table_constraint)):
         ch_ = d.subset(dchoices, 1, 2)
-        st_ = d.subset(dstates, 0, 2)
+        st_ = d.subset(dstates, 1 if inf_last else 0, 2)
         st_ = [s for s in dstates if s in st_]
         ch_ = [c for c in dchoices if c in ch_]
+        if inf_last:
+            # the table must cover every discrete choice, otherwise a state is never infeasible
+            ch_ = list(dchoices)
         over = st_ + ch_
-        perk = Tc > 1 and (Tc != Tp or d.bool(0.3))
-        free = d.bool(prof.free_constraints)
+        perk = inf_last or (Tc > 1 and (Tc != Tp or d.bool(0.3)))
+        free = (not inf_last) and d.bool(prof.free_constraints)
 
         def g(shp):
             m = d.table_bool(shp, prof.free_p_true if free else 0.7)
@@ -455,6 +462,12 @@ def model_specs(draw, prof: Profile = Profile()):
                 if len(shp) > len(over):
                     idx = idx + (slice(None),)
                 m[idx] = True
+            if inf_last:
+                n_comb = int(np.prod(shp[: len(st_)]))
+                k = d.int(1, max(1, n_comb - 1))
+                for r in range(k):
+                    lab = np.unravel_index((d.int(0, n_comb - 1)), shp[: len(st_)])
+                    m[tuple(lab) + (slice(None),) * len(ch_) + (shp[-1] - 1,)] = False
             return m
 
         expr = b.table(over, perk, g)
